@@ -87,7 +87,7 @@ def apply_overlay(tree, group, tier):
             f.write(htext)
         with open(os.path.join(tree, rel), "a") as f:
             f.write(
-                '\n#[cfg(kani)]\n#[path = "%s"]\nmod verif_%s;\n' % (dst, modname)
+                '\n#[cfg(kani)]\n#[path = "%s"]\npub(crate) mod verif_%s;\n' % (dst, modname)
             )
     params = dict(group.get("params", {}).get("quick", {}))
     if tier == "thorough":
@@ -261,7 +261,8 @@ def run_harness(group, tree, scratch, hname, hspec, tier):
         subprocess.call(["cp", "-a", base, tgt])
     logfile = os.path.join(scratch, "log_%s.txt" % re.sub(r"\W", "_", hname))
     timeout = hspec.get("timeout", {}).get(tier, group.get("timeout", {}).get(tier, 1500))
-    rc, timed_out, wall = run_cmd(kani_cmd(group, hname, hspec, tgt), tree, timeout, logfile)
+    rc, timed_out, wall = run_cmd(kani_cmd(group, hname, hspec, tgt), tree, timeout, logfile,
+                                  rss_gb=hspec.get("rss_gb", group.get("rss_gb")))
     text = open(logfile, errors="replace").read()
     parsed = parse_kani_log(text)
     status, detail = classify(hname, hspec, rc, timed_out, parsed, text)
